@@ -66,6 +66,7 @@ type gen struct {
 	uid     int
 	depth   int
 	noIdent int
+	nest    int
 }
 
 var typeWords = []string{"User", "Item", "Order", "Req", "Resp", "Node", "Tree", "Info", "Meta", "Pair", "Entry", "Cfg", "Msg", "Evt", "Doc", "Blob"}
@@ -237,8 +238,17 @@ func isKeyable(t *Type, structKeys bool) bool {
 
 // genType draws a type expression usable in file f.
 func (g *gen) genType(f *File, depth int) *Type {
-	g.deck++
-	k := g.deck % 24
+	// the round-robin deck drives only outermost type expressions (so that every shape occurs
+	// as a field/typedef/argument type); nested positions draw at random
+	var k int
+	if g.nest == 0 {
+		g.deck++
+		k = g.deck % 24
+	} else {
+		k = g.rng.Intn(24)
+	}
+	g.nest++
+	defer func() { g.nest-- }()
 	if depth <= 0 && k >= 12 && k <= 19 {
 		k = g.rng.Intn(12)
 	}
